@@ -166,6 +166,10 @@ def menu(M, seen):
         # the very same object as receiver and argument
         add({"op": "cbind_self"})
         add({"op": "update_self"})
+        if n >= 1:
+            # EVERY column of the receiver replaced: the row count is still the receiver's (values broadcast, or rejected)
+            for form in ("scalar", "len1", "wrong"):
+                add({"op": "update_all", "form": form})
         if ok_key(M.get(names[0])):
             add({"op": "left_join_self"})
             add({"op": "anti_join_self"})
@@ -458,6 +462,12 @@ def apply_real(d, M, op):
         return d.cbind(d), []
     if o == "update_self":
         return d.update(d), []
+    if o == "update_all":
+        if op["form"] == "scalar":
+            return d.update({nm: 5 for nm in M.names}), []
+        m = 1 if op["form"] == "len1" else n + 2
+        other = di.DataFrame({nm: np.arange(5, 5 + m, dtype="int64") for nm in M.names})
+        return d.update(other), [other]
     if o == "left_join_self":
         return d.left_join(d, M.names[0]), []
     if o == "anti_join_self":
@@ -595,6 +605,9 @@ def apply_model(M, op):
         return M.cbind(M), flags
     if o == "update_self":
         return M.update(M), {"unordered": True}
+    if o == "update_all":
+        m = 1 if op["form"] in ("scalar", "len1") else n + 2
+        return M.update(T([[nm, list(range(5, 5 + m))] for nm in M.names])), {"unordered": True}
     if o == "left_join_self":
         return M.join("left_join", M, [(M.names[0], M.names[0])]), flags
     if o == "anti_join_self":
